@@ -391,8 +391,8 @@ func (f *walletFam) audit(r *hx.Run) string {
 		} else if !bytes.Equal(privBytes(acc.PrivateKey), privBytes(k.priv)) || acc.Address.ToBase58() != k.addr {
 			r.Viol("C43:wrong-key-after-reload:"+kind, fmt.Sprintf("account A%d (%s) decrypts to a different key pair / address after reload", l.key, kind))
 		}
-		for _, wrong := range [][]byte{append(append([]byte{}, l.pw...), 0), flipLast(l.pw), []byte("x")} {
-			if bytes.Equal(wrong, l.pw) {
+		for _, wrong := range [][]byte{flipLast(l.pw), []byte("x"), append([]byte("x"), l.pw...)} {
+			if bytes.Equal(hmacKey(wrong), hmacKey(l.pw)) {
 				continue
 			}
 			acc, err := c.GetAccountByAddress(k.addr, wrong)
@@ -400,8 +400,37 @@ func (f *walletFam) audit(r *hx.Run) string {
 				r.Viol("C43:other-password-accepted:"+kind, fmt.Sprintf("account A%d (%s) decrypts without error under a password that is not its own (returned address %s, own address %s)", l.key, kind, acc.Address.ToBase58(), k.addr))
 			}
 		}
+		// passwords that are different byte strings but the same HMAC key (scrypt = PBKDF2-HMAC-SHA256 consumes
+		// the password as an HMAC key: zero-padded to the block size, hashed when longer than it)
+		var equiv [][]byte
+		var what []string
+		if len(l.pw) < 64 {
+			equiv, what = append(equiv, append(append([]byte{}, l.pw...), 0)), append(what, "trailing-nul")
+		}
+		if len(l.pw) > 64 {
+			h := sha256.Sum256(l.pw)
+			equiv, what = append(equiv, h[:]), append(what, "sha256-of-long-password")
+		}
+		for i, e := range equiv {
+			acc, err := c.GetAccountByAddress(k.addr, e)
+			if err == nil && acc != nil {
+				r.Viol("C43:equivalent-password-accepted:"+what[i], fmt.Sprintf("account A%d (%s) with password %x also decrypts under the different password %x (%s: both are the same HMAC-SHA256 key inside scrypt)", l.key, kind, l.pw, e, what[i]))
+			} else {
+				r.Hist("equivalent-password-rejected." + what[i])
+			}
+		}
 	}
 	return "ok"
+}
+
+// hmacKey is the HMAC-SHA256 key block of a password.
+func hmacKey(pw []byte) []byte {
+	k := pw
+	if len(k) > 64 {
+		h := sha256.Sum256(k)
+		k = h[:]
+	}
+	return append(append([]byte{}, k...), make([]byte, 64-len(k))...)
 }
 
 func flipLast(b []byte) []byte {
